@@ -109,6 +109,7 @@ def parse_unit(path):
     default_props = []
     raw = None
     raw_kind = ("raw",)
+    lemma = None
 
     def close_block():
         nonlocal cur_block
@@ -126,6 +127,17 @@ def parse_unit(path):
                 raw = None
             else:
                 raw.append(line)
+            continue
+        if lemma is not None:
+            if line.startswith("%endlemma"):
+                unit.entries.append(("lemma", lemma))
+                lemma = None
+            elif line.startswith("%spec"):
+                lemma["part"] = "spec"
+            elif line.startswith("%body"):
+                lemma["part"] = "body"
+            else:
+                lemma[lemma["part"]] += line + "\n"
             continue
         if not line.startswith("%"):
             if line.startswith("# ") or line == "#":
@@ -195,6 +207,13 @@ def parse_unit(path):
         elif d == "%bitflags":
             # %bitflags MOD : the bitflags! { struct N: T { const A = v; .. } } invocation of module MOD (R7)
             unit.entries.append(("bitflags", arg))
+            buf_target = None
+        elif d == "%lemma":
+            # %lemma NAME C07 C11 : a proof fn over the contracts' specification functions whose
+            # labelled ensures clauses are obligations of the listed properties
+            #   <signature lines>  %spec <labelled clauses>  %body <proof body>  %endlemma
+            ps = arg.split()
+            lemma = {"name": ps[0], "props": ps[1:], "sig": "", "spec": "", "body": "", "part": "sig", "src": src, "line": n}
             buf_target = None
         elif d == "%raw":
             raw = []
